@@ -4,6 +4,7 @@ import (
 	"bytes"
 	"fmt"
 	"math/rand"
+	"strconv"
 	"strings"
 
 	"github.com/parquet-go/parquet-go"
@@ -172,6 +173,8 @@ func c05HistFile(ctx *core.Ctx, b *c05Batch, id string) {
 			}
 			// ---- read back levels and values page by page
 			var defPages, repPages [][]byte
+			var entryPages []string   // per page: the level stream `def:rep:hex|n` for the Lean level model
+			var pageCounts [][3]int64 // per page: NumValues, NumNulls, NumRows as the page reports them
 			var numValues, byteLen int64
 			isBytes := cc.Type().Kind() == parquet.ByteArray
 			perr := c05Recover(func() {
@@ -185,6 +188,8 @@ func c05HistFile(ctx *core.Ctx, b *c05Batch, id string) {
 					defPages = append(defPages, bytes.Clone(p.DefinitionLevels()))
 					repPages = append(repPages, bytes.Clone(p.RepetitionLevels()))
 					numValues += p.NumValues()
+					pageCounts = append(pageCounts, [3]int64{p.NumValues(), p.NumNulls(), p.NumRows()})
+					var es []string
 					vr := p.Values()
 					vb := make([]parquet.Value, 64)
 					for {
@@ -193,11 +198,20 @@ func c05HistFile(ctx *core.Ctx, b *c05Batch, id string) {
 							if !v.IsNull() && isBytes {
 								byteLen += int64(len(v.ByteArray()))
 							}
+							val := "n"
+							if !v.IsNull() {
+								val = "e" // fixed-width columns: presence only
+								if isBytes {
+									val = c05Hex(v.ByteArray())
+								}
+							}
+							es = append(es, fmt.Sprintf("%d:%d:%s", v.DefinitionLevel(), v.RepetitionLevel(), val))
 						}
 						if err != nil || n == 0 {
 							break
 						}
 					}
+					entryPages = append(entryPages, strings.Join(es, ","))
 					parquet.Release(p)
 				}
 			})
@@ -280,6 +294,42 @@ func c05HistFile(ctx *core.Ctx, b *c05Batch, id string) {
 			}
 			check("definition", maxDef, defPages, md.SizeStatistics.DefinitionLevelHistogram, flatDef)
 			check("repetition", maxRep, repPages, md.SizeStatistics.RepetitionLevelHistogram, flatRep)
+			// L2: the level model of one page (`pageLevelStats`, the object of `levelStats_exact`): value count,
+			// null count, row count, both histograms and the unencoded byte-array size from ONE level stream,
+			// against what the page, the column index and the size statistics say
+			if raw != nil && len(raw.NullCounts) == len(entryPages) {
+				unencoded := new(int64)
+				for i, es := range entryPages {
+					if es == "" {
+						continue
+					}
+					i, last := i, i == len(entryPages)-1
+					slice := func(flat []int64, maxLevel int) string {
+						if maxLevel == 0 || len(flat) != len(entryPages)*(maxLevel+1) {
+							return "" // omitted for max level 0
+						}
+						return c05Ints(flat[i*(maxLevel+1) : (i+1)*(maxLevel+1)])
+					}
+					wantDef, wantRep := slice(flatDef, maxDef), slice(flatRep, maxRep)
+					ctx.Hist("level-model-asked", fmt.Sprintf("def<=%d rep<=%d", maxDef, maxRep))
+					b.ask(fmt.Sprintf("c05.levels %d %d %s", maxDef, maxRep, es), func(ans string) {
+						f := strings.Fields(ans)
+						ok := len(f) == 7 && f[0] == "ok" &&
+							f[1] == fmt.Sprint(pageCounts[i][0]) && f[2] == fmt.Sprint(pageCounts[i][1]) && f[2] == fmt.Sprint(raw.NullCounts[i]) &&
+							f[3] == fmt.Sprint(pageCounts[i][2]) && (wantDef == "" || f[4] == wantDef) && (wantRep == "" || f[5] == wantRep)
+						if !ok {
+							ctx.Fail("L2", "level-model-mirror", "value count / null count / row count / level histograms of a page differ from the Lean level model of the page", detail(map[string]any{"page": i, "entries": es, "model": ans,
+								"impl": fmt.Sprintf("num_values=%d page_nulls=%d index_null_count=%d num_rows=%d def_hist=%s rep_hist=%s", pageCounts[i][0], pageCounts[i][1], raw.NullCounts[i], pageCounts[i][2], wantDef, wantRep)}))
+							return
+						}
+						n, _ := strconv.ParseInt(f[6], 10, 64)
+						*unencoded += n
+						if last && isBytes && *unencoded != md.SizeStatistics.UnencodedByteArrayDataBytes {
+							ctx.Fail("L2", "level-model-mirror unencoded-bytes", fmt.Sprintf("unencoded_byte_array_data_bytes=%d, the Lean level model sums %d over the pages", md.SizeStatistics.UnencodedByteArrayDataBytes, *unencoded), detail(nil))
+						}
+					})
+				}
+			}
 			if isBytes {
 				ctx.Hist("unencoded-bytes-column", colName)
 				if md.SizeStatistics.UnencodedByteArrayDataBytes != byteLen {
